@@ -14,8 +14,10 @@ SETTINGS_FIELDS = [('window', IntS), ('max_dist', Val), ('max_step', Val), ('max
                    ('penalty', Val), ('psi_1b', IntS), ('psi_1e', IntS), ('psi_2b', IntS), ('psi_2e', IntS),
                    ('use_pruning', BoolS), ('only_ub', BoolS), ('inner_dist', IntS), ('window_type', IntS)]
 
-_SIG = [AV, IntS, IntS, AV, IntS, IntS, IntS] + [s for _, s in SETTINGS_FIELDS]
+_SIG = [AV, IntS, IntS, AV, IntS, IntS] + [s for _, s in SETTINGS_FIELDS]
 DTWCf = z3.Function('DTWC', *(_SIG + [Val]))
+_SIGND = [AV, IntS, IntS, AV, IntS, IntS, IntS] + [s for _, s in SETTINGS_FIELDS]
+DTWCndf = z3.Function('DTWCnd', *(_SIGND + [Val]))
 
 
 def settings_terms(ex, st, settings):
@@ -27,10 +29,51 @@ def settings_terms(ex, st, settings):
     return out
 
 
-def _dtwc(ex, st, s1, l1, s2, l2, ndim, settings):
+def _dtwc(ex, st, s1, l1, s2, l2, settings):
     a1, o1 = series_parts(ex, st, s1)
     a2, o2 = series_parts(ex, st, s2)
-    return DTWCf(a1, o1, zint(l1), a2, o2, zint(l2), zint(ndim), *settings_terms(ex, st, settings))
+    return DTWCf(a1, o1, zint(l1), a2, o2, zint(l2), *settings_terms(ex, st, settings))
 
 
-spec('DTWC', z3=_dtwc, doc='value returned by the C kernel dtw_distance / dtw_distance_ndim')
+def _dtwcnd(ex, st, s1, l1, s2, l2, ndim, settings):
+    a1, o1 = series_parts(ex, st, s1)
+    a2, o2 = series_parts(ex, st, s2)
+    return DTWCndf(a1, o1, zint(l1), a2, o2, zint(l2), zint(ndim), *settings_terms(ex, st, settings))
+
+
+spec('DTWC', z3=_dtwc, doc='value returned by the C kernel dtw_distance')
+spec('DTWCnd', z3=_dtwcnd, doc='value returned by the C kernel dtw_distance_ndim (that it coincides with '
+     'DTWC for ndim = 1 is part of C11, not assumed)')
+
+
+def _py_dtwc(ex, st, s1, l1, s2, l2, settings):
+    return _py_dtwcnd(ex, st, s1, l1, s2, l2, None, settings)
+
+
+def _py_dtwcnd(ex, st, s1, l1, s2, l2, ndim, settings):
+    """Concrete oracle for replay: the real kernel, called natively (modular replay: the caller is
+    checked against what the callee actually returns)."""
+    from dvc import creplay
+    from contracts.gens import fx
+
+    def buf(p, n):
+        items = st.heap[p.oid].items[p.off:p.off + n]
+        return {'buf': [fx(x) for x in items]}
+    f = st.heap[settings.oid].fields
+    sj = {'struct': {k: (fx(v) if isinstance(v, float) else v) for k, v in f.items()}}
+    args = dict(s1=buf(s1, l1 * (ndim or 1)), l1=l1, s2=buf(s2, l2 * (ndim or 1)), l2=l2, settings=sj)
+    name = 'dd_dtw.c::dtw_distance'
+    if ndim is not None:
+        name = 'dd_dtw.c::dtw_distance_ndim'
+        args['ndim'] = ndim
+    key = (name, str(args))
+    cache = ex.program.__dict__.setdefault('_dtwc_cache', {})
+    if key not in cache:
+        o = creplay.native_c_calls(ex.program, name, [args])[0]
+        cache[key] = float.fromhex(o['result']['f']) if o.get('ok') else float('nan')
+    return cache[key]
+
+
+from dvc.contracts import SPECS
+SPECS['DTWC'].py = _py_dtwc
+SPECS['DTWCnd'].py = _py_dtwcnd
